@@ -292,6 +292,26 @@ def run_cells_case(ctx, case):
             gr.cellsize = csz
         except AttributeError:
             gr = Grid("g", nc, nr, cellsize=csz, xllcorner=xll, yllcorner=yll)
+    # what the grid *holds* is irrelevant to the question: data bounds, no-data value,
+    # cell type and cell values vary
+    k_ = int(abs(poly.sum()) * 8 + nc) % 6
+    if k_ in (1, 2, 3, 4) and hasattr(type(gr), "mindata"):
+        ctx.tag("cells:grid-with-data-bounds")
+        try:
+            if k_ == 1:
+                gr.mindata = 1.0
+                gr.fill(4)
+            elif k_ == 2:
+                gr.maxdata = -0.5
+                gr.fill(-3)
+            elif k_ == 3:
+                gr.mindata, gr.maxdata = 1e-3, 0.9
+                gr.fill(0.5)
+            else:
+                gr.mindata, gr.maxdata = 2.0, 128.0
+                gr.nodata = 255
+        except Exception:
+            pass
     ctx.api("cells_inside_polygon")
     df = gr.cells_inside_polygon(poly.copy())
     cells = set(int(c) for c in df["cell"].values)
@@ -401,6 +421,49 @@ def run_digitised_case(ctx, case):
     ctx.nontrivial("digitised", case["outline"], case["nv"], csz)
 
 
+def smooth_sizes(lo, hi):
+    """numbers of points at which block-wise processing changes hands: block lengths
+    are powers of two times a small factor (3 x 2^18 = 12 MiB of coordinates, 5 x 2^17
+    ...) or round decimal numbers; each with its two neighbours"""
+    s = set()
+    for a_ in range(10, 24):
+        for f_ in (1, 3, 5, 7, 9, 15):
+            v = f_ * 2 ** a_
+            for mult in (1, 2, 3):
+                s.update((v * mult - 1, v * mult, v * mult + 1))
+    for r in (100000, 125000, 200000, 250000, 500000, 750000, 1000000, 1500000, 2000000):
+        s.update((r - 1, r, r + 1))
+    return sorted(v for v in s if lo <= v <= hi)
+
+
+def run_many_points(ctx, sizes):
+    """hundreds of thousands to millions of points in one call, all of them inside a
+    plain quadrilateral except a known few: the answer vector is known in closed form"""
+    gu = P()
+    poly = np.array([[0.0, 0.0], [8.0, 0.5], [8.5, 7.0], [-0.5, 6.5]])
+    rng = np.random.default_rng(len(sizes))
+    big = rng.uniform(1.0, 6.0, size=(max(sizes), 2))        # strictly inside
+    for n in sizes:
+        pts = big[:n].copy()
+        out = np.unique(np.concatenate([rng.integers(0, n, size=5), [0, n // 2]]))
+        out = out[out < n - 1]                # the last point stays inside
+        pts[out] = [20.0, 3.0]
+        exp = np.ones(n, dtype=np.int32)
+        exp[out] = 0
+        ctx.evaluated()
+        ctx.tag("pip:many-points")
+        ctx.api("points_inside_polygon")
+        got = np.asarray(gu.points_inside_polygon(pts, poly))
+        bad = np.where(got != exp)[0]
+        ctx.check("inside.many-points", got.shape == exp.shape and len(bad) == 0,
+                  "points_inside_polygon|even-odd|many-points",
+                  {"kind": "manypoints", "n": int(n)},
+                  lambda: {"n": int(n), "n_wrong": int(len(bad)),
+                           "first_wrong_index": int(bad[0]) if len(bad) else None,
+                           "got": int(got[bad[0]]) if len(bad) else None})
+        ctx.nontrivial("manypoints", n)
+
+
 def run_big_grid(ctx):
     """grids of more than a million cells (a 1000 x 1250 raster and a 2^20 + 1 cell one):
     small non-convex polygons placed at the start, across cell number 10^6 / 2^20 and at
@@ -442,6 +505,11 @@ def run_big_grid(ctx):
 def run(ctx):
     if ctx.shard == 1 % ctx.nshards:
         run_big_grid(ctx)
+    ms = smooth_sizes(100000, 2400000 if ctx.tier == "quick" else 9000000)
+    mine = [v for j, v in enumerate(ms) if ctx.nshards <= 1 or
+            j % ctx.nshards == ctx.shard % ctx.nshards]
+    if mine:
+        run_many_points(ctx, mine)
     dig = [("half-disc", 24000, 1.0), ("disc", 50000, 1.0), ("coast", 30000, 250.0),
            ("half-disc", 3000, 0.05), ("disc", 6000, 1000.0), ("coast", 100000, 1.0)]
     if ctx.tier == "thorough":
@@ -493,6 +561,8 @@ def replay(ctx, case):
         return run_big_grid(ctx)
     if case["kind"] == "digitised":
         return run_digitised_case(ctx, case)
+    if case["kind"] == "manypoints":
+        return run_many_points(ctx, [int(case["n"])])
     if case["kind"] == "pip":
         run_case(ctx, case)
     else:
